@@ -5,6 +5,7 @@ import (
 	"go/ast"
 	"go/constant"
 	"go/token"
+	"math/big"
 	"strings"
 )
 
@@ -156,33 +157,47 @@ func init() {
 				fmt.Fprintf(&b, "Definition ted_exact_limit : Z := %s.\n", l[0])
 			}
 		}
-		// --- default cost model
-		for _, f := range []string{"Insert", "Delete"} {
-			if fd := findFunc(p, "apted_cost.go", "DefaultCostModel", f); need(fd, "DefaultCostModel."+f) {
-				r := returnExprs(fd)
-				if len(r) != 1 {
-					fail("ted: DefaultCostModel.%s: expected one return", f)
-					continue
+		// --- default cost model: evaluated on nodes with equal / different labels
+		{
+			in := newInterp(p)
+			node := func(l string) *Struct { return mkStruct("TreeNode", "Label", l) }
+			recvV := mkStruct("DefaultCostModel")
+			evalF := func(fn string, args ...Value) (string, bool) {
+				fd := findFunc(p, "apted_cost.go", "DefaultCostModel", fn)
+				if !need(fd, "DefaultCostModel."+fn) {
+					return "", false
 				}
-				if q, ok := litQ(p, r[0]); ok {
-					fmt.Fprintf(&b, "Definition ted_default_%s : Q := %s.\n", strings.ToLower(f), q)
-				} else {
-					fail("ted: DefaultCostModel.%s: non-constant return", f)
+				v, err := in.call1(p, fd, recvV, args...)
+				x, ok := v.(float64)
+				if err != nil || !ok {
+					fail("ted: DefaultCostModel.%s cannot be evaluated: %v (%T)", fn, err, v)
+					return "", false
 				}
+				// the same for any label: the model has one constant
+				for _, alt := range [][]Value{{node("Zzz"), node("Zzz")}, {node("For"), node("Name(x)")}} {
+					if fn != "Rename" {
+						if w, err := in.call1(p, fd, recvV, alt[0]); err != nil || w != v {
+							fail("ted: DefaultCostModel.%s depends on the node", fn)
+							return "", false
+						}
+					}
+				}
+				return floatQ(x)
 			}
-		}
-		if fd := findFunc(p, "apted_cost.go", "DefaultCostModel", "Rename"); need(fd, "DefaultCostModel.Rename") {
-			r := returnExprs(fd)
-			if len(r) != 3 {
-				fail("ted: DefaultCostModel.Rename: expected 3 returns (nil, same label, different), found %d", len(r))
-			} else {
-				q1, ok1 := litQ(p, r[1])
-				q2, ok2 := litQ(p, r[2])
-				if ok1 && ok2 {
-					fmt.Fprintf(&b, "Definition ted_default_rename_same : Q := %s.\nDefinition ted_default_rename_diff : Q := %s.\n", q1, q2)
-				} else {
-					fail("ted: DefaultCostModel.Rename: non-constant returns")
+			if q, ok := evalF("Insert", node("A")); ok {
+				fmt.Fprintf(&b, "Definition ted_default_insert : Q := %s.\n", q)
+			}
+			if q, ok := evalF("Delete", node("A")); ok {
+				fmt.Fprintf(&b, "Definition ted_default_delete : Q := %s.\n", q)
+			}
+			q1, ok1 := evalF("Rename", node("A"), node("A"))
+			q2, ok2 := evalF("Rename", node("A"), node("B"))
+			q3, ok3 := evalF("Rename", node("Name(x)"), node("Name(y)"))
+			if ok1 && ok2 && ok3 {
+				if q2 != q3 {
+					fail("ted: DefaultCostModel.Rename of different labels is not a single constant")
 				}
+				fmt.Fprintf(&b, "Definition ted_default_rename_same : Q := %s.\nDefinition ted_default_rename_diff : Q := %s.\n", q1, q2)
 			}
 		}
 		// --- python cost model: constructor fields
@@ -232,89 +247,9 @@ func init() {
 				fail("ted: NewPythonCostModelWithBoilerplateConfig: base costs are no longer 1.0")
 			}
 		}
-		// --- node type multipliers, in the order of the return statements
-		if fd := findFunc(p, "apted_cost.go", "PythonCostModel", "getNodeTypeMultiplier"); need(fd, "getNodeTypeMultiplier") {
-			r := returnExprs(fd)
-			names := []string{"", "structural", "controlflow", "expression", "literal_ignored", "identifier_ignored", "other"}
-			if len(r) != 7 {
-				fail("ted: getNodeTypeMultiplier: expected 7 returns, found %d", len(r))
-			} else {
-				if s := src(p, r[0]); s != "c.BoilerplateMultiplier" {
-					fail("ted: getNodeTypeMultiplier: first return is %s", s)
-				}
-				for i := 1; i < 7; i++ {
-					if q, ok := litQ(p, r[i]); ok {
-						fmt.Fprintf(&b, "Definition ted_py_mult_%s : Q := %s.\n", names[i], q)
-					} else {
-						fail("ted: getNodeTypeMultiplier: return %d not constant", i)
-					}
-				}
-			}
-		}
-		for _, it := range [][2]string{{"isStructuralNode", "structuralNodes"}, {"isControlFlowNode", "controlFlowNodes"}, {"isExpressionNode", "expressionNodes"}} {
-			if fd := findFunc(p, "apted_cost.go", "PythonCostModel", it[0]); need(fd, it[0]) {
-				ss := stringSlices(fd)[it[1]]
-				if len(ss) == 0 {
-					fail("ted: %s: list %s not found", it[0], it[1])
-				}
-				fmt.Fprintf(&b, "Definition ted_py_%s : list string := %s.\n", it[1], tedStrList(flat(ss)))
-			}
-		}
-		for _, it := range [][2]string{{"isLiteralNode", "literal_prefix"}, {"isIdentifierNode", "identifier_prefix"}} {
-			if fd := findFunc(p, "apted_cost.go", "PythonCostModel", it[0]); need(fd, it[0]) {
-				a := stringArgs(fd, "HasPrefix")
-				if len(a) != 1 {
-					fail("ted: %s: expected one HasPrefix", it[0])
-				} else {
-					fmt.Fprintf(&b, "Definition ted_py_%s : string := %s.\n", it[1], tedStr(a[0]))
-				}
-			}
-		}
-		if fd := findFunc(p, "apted_cost.go", "PythonCostModel", "calculateLabelSimilarity"); need(fd, "calculateLabelSimilarity") {
-			r := returnExprs(fd)
-			names := []string{"toplevel_other_name", "same_base", "related", "same_category", "none"}
-			if len(r) != 5 {
-				fail("ted: calculateLabelSimilarity: expected 5 returns, found %d", len(r))
-			} else {
-				for i, e := range r {
-					if q, ok := litQ(p, e); ok {
-						fmt.Fprintf(&b, "Definition ted_py_sim_%s : Q := %s.\n", names[i], q)
-					} else {
-						fail("ted: calculateLabelSimilarity: return %d not constant", i)
-					}
-				}
-			}
-		}
-		if fd := findFunc(p, "apted_cost.go", "PythonCostModel", "areRelatedNodeTypes"); need(fd, "areRelatedNodeTypes") {
-			rows := stringSlices(fd)["relatedPairs"]
-			var items []string
-			for _, r := range rows {
-				if len(r) != 2 {
-					fail("ted: relatedPairs: malformed row")
-					continue
-				}
-				items = append(items, "("+tedStr(r[0])+", "+tedStr(r[1])+")")
-			}
-			if len(items) == 0 {
-				fail("ted: relatedPairs not found")
-			}
-			fmt.Fprintf(&b, "Definition ted_py_relatedPairs : list (string * string) := [%s].\n", strings.Join(items, "; "))
-		}
-		if fd := findFunc(p, "apted_cost.go", "PythonCostModel", "isTopLevelDefinition"); need(fd, "isTopLevelDefinition") {
-			var names []string
-			ast.Inspect(fd, func(n ast.Node) bool {
-				if be, ok := n.(*ast.BinaryExpr); ok && be.Op == token.EQL {
-					if bl, ok := be.Y.(*ast.BasicLit); ok && bl.Kind == token.STRING {
-						names = append(names, constant.StringVal(constant.MakeFromLiteral(bl.Value, bl.Kind, 0)))
-					}
-				}
-				return true
-			})
-			if len(names) == 0 {
-				fail("ted: isTopLevelDefinition: no names")
-			}
-			fmt.Fprintf(&b, "Definition ted_py_toplevel : list string := %s.\n", tedStrList(names))
-		}
+		// --- the label predicates, multipliers and similarity levels of the Python cost model: read by evaluation
+		var tb strings.Builder
+		tedDecisions(&b, &tb, p)
 		// --- boilerplate labels
 		if fd := findFunc(p, "framework_patterns.go", "", "IsBoilerplateLabel"); need(fd, "IsBoilerplateLabel") {
 			ss := stringSlices(fd)
@@ -348,6 +283,7 @@ func init() {
 			}
 		}
 		writeGen("TedConst.v", b.String())
+		writeGen("TedTables.v", tb.String())
 
 		for _, f := range []string{"ComputeDistance", "apted", "computeForestDistance", "getPostOrderNodes",
 			"postOrderTraversalWithDepthLimit", "computeInsertCostWithDepthLimit", "computeDeleteCostWithDepthLimit",
@@ -369,4 +305,434 @@ func init() {
 		}
 		recordDigest(p, "framework_patterns.go", "", "IsBoilerplateLabel")
 	})
+}
+
+// ---------------------------------------------------------------------------------------------------
+// label predicates, multipliers, similarity levels: read by evaluation (goeval.go)
+// ---------------------------------------------------------------------------------------------------
+
+// fileStrings: the distinct string literals of a source file, in order of first occurrence.
+func fileStrings(p *pkgInfo, file string) []string {
+	f := p.files[file]
+	if f == nil {
+		return nil
+	}
+	seen := map[string]bool{}
+	var out []string
+	ast.Inspect(f, func(n ast.Node) bool {
+		if _, ok := n.(*ast.ImportSpec); ok {
+			return false
+		}
+		if bl, ok := n.(*ast.BasicLit); ok && bl.Kind == token.STRING {
+			s := constant.StringVal(constant.MakeFromLiteral(bl.Value, bl.Kind, 0))
+			if !seen[s] {
+				seen[s] = true
+				out = append(out, s)
+			}
+		}
+		return true
+	})
+	return out
+}
+
+// floatQ renders a float64 exactly as a Coq Q literal.
+func floatQ(f float64) (string, bool) {
+	r := new(big.Rat)
+	if r.SetFloat64(f) == nil {
+		return "", false
+	}
+	return fmt.Sprintf("((%s) # %s)%%Q", r.Num().String(), r.Denom().String()), true
+}
+
+func addDistinct(xs []string, ys ...string) []string {
+	seen := map[string]bool{}
+	for _, x := range xs {
+		seen[x] = true
+	}
+	for _, y := range ys {
+		if !seen[y] {
+			seen[y] = true
+			xs = append(xs, y)
+		}
+	}
+	return xs
+}
+
+// strangers of a label: one letter more, one letter less, other case.
+func labelStrangers(m string) []string {
+	out := []string{m + "X", strings.ToLower(m)}
+	if len(m) > 1 {
+		out = append(out, m[:len(m)-1])
+	}
+	return out
+}
+
+func tedDecisions(b, tb *strings.Builder, p *pkgInfo) {
+	const file, recv = "apted_cost.go", "PythonCostModel"
+	in := newInterp(p)
+	model := func(ignL, ignI, reduce bool, bp float64) *Struct {
+		return mkStruct(recv, "BaseInsertCost", 1.0, "BaseDeleteCost", 1.0, "BaseRenameCost", 1.0,
+			"IgnoreLiterals", ignL, "IgnoreIdentifiers", ignI, "ReduceBoilerplateWeight", reduce, "BoilerplateMultiplier", bp)
+	}
+	plain := model(false, false, false, 0.5)
+	universe := fileStrings(p, file)
+	if len(universe) == 0 {
+		fail("ted: no string literals found in %s", file)
+		return
+	}
+	bad := false
+	pred1 := func(fn string) func(string) bool {
+		fd := findFunc(p, file, recv, fn)
+		if fd == nil {
+			fail("ted: function not found: %s", fn)
+			bad = true
+			return func(string) bool { return false }
+		}
+		failed := false
+		return func(s string) bool {
+			v, err := asBool(in.call1(p, fd, plain, s))
+			if err != nil && !failed {
+				fail("ted: %s cannot be evaluated: %v", fn, err)
+				failed, bad = true, true
+			}
+			return v
+		}
+	}
+	pred2 := func(fn string) func(string, string) bool {
+		fd := findFunc(p, file, recv, fn)
+		if fd == nil {
+			fail("ted: function not found: %s", fn)
+			bad = true
+			return func(string, string) bool { return false }
+		}
+		failed := false
+		return func(s, t string) bool {
+			v, err := asBool(in.call1(p, fd, plain, s, t))
+			if err != nil && !failed {
+				fail("ted: %s cannot be evaluated: %v", fn, err)
+				failed, bad = true, true
+			}
+			return v
+		}
+	}
+	table1 := func(name string, f func(string) bool, labels []string) {
+		var rows []string
+		for _, l := range labels {
+			rows = append(rows, fmt.Sprintf("(%s, %s)", tedStr(l), coqBool(f(l))))
+		}
+		emitTable(tb, name, "string * bool", rows)
+	}
+	table2 := func(name string, f func(string, string) bool, labels []string) {
+		var rows []string
+		for _, l1 := range labels {
+			for _, l2 := range labels {
+				rows = append(rows, fmt.Sprintf("((%s, %s), %s)", tedStr(l1), tedStr(l2), coqBool(f(l1, l2))))
+			}
+		}
+		emitTable(tb, name, "(string * string) * bool", rows)
+	}
+	general := []string{"", "Zzz", "Pass", "Expr", "Assign"}
+
+	// ---- prefix lists: isStructuralNode / isControlFlowNode / isExpressionNode -------------------
+	// members = the literals of the file the predicate accepts, minus those that extend another member
+	// (the model tests strings.HasPrefix against each member; the table below checks that reading)
+	cats := map[string][]string{}
+	for _, it := range [][2]string{{"isStructuralNode", "structuralNodes"}, {"isControlFlowNode", "controlFlowNodes"}, {"isExpressionNode", "expressionNodes"}} {
+		f := pred1(it[0])
+		var acc []string
+		for _, u := range universe {
+			if u != "" && f(u) {
+				acc = append(acc, u)
+			}
+		}
+		var members []string
+		for _, m := range acc {
+			ext := false
+			for _, o := range acc {
+				if o != m && strings.HasPrefix(m, o) {
+					ext = true
+				}
+			}
+			if !ext {
+				members = append(members, m)
+			}
+		}
+		if len(members) == 0 && !bad {
+			fail("ted: %s accepts none of the string literals of %s", it[0], file)
+		}
+		cats[it[1]] = members
+		fmt.Fprintf(b, "Definition ted_py_%s : list string := %s.\n", it[1], tedStrList(members))
+		labels := append([]string{}, general...)
+		labels = addDistinct(labels, universe...)
+		for _, m := range acc {
+			labels = addDistinct(labels, labelStrangers(m)...)
+			labels = addDistinct(labels, m+"(x)")
+		}
+		table1(it[0]+"_table", f, labels)
+	}
+
+	// ---- prefixes: isLiteralNode / isIdentifierNode ------------------------------------------------
+	prefixes := map[string]string{}
+	for _, it := range [][2]string{{"isLiteralNode", "literal_prefix"}, {"isIdentifierNode", "identifier_prefix"}} {
+		f := pred1(it[0])
+		pre := ""
+		found := false
+		for _, u := range universe {
+			if u == "" || !f(u) {
+				continue
+			}
+			for k := 1; k <= len(u); k++ {
+				if f(u[:k]) {
+					pre, found = u[:k], true
+					break
+				}
+			}
+			break
+		}
+		if !found && !bad {
+			fail("ted: %s accepts none of the string literals of %s", it[0], file)
+		}
+		prefixes[it[1]] = pre
+		fmt.Fprintf(b, "Definition ted_py_%s : string := %s.\n", it[1], tedStr(pre))
+		labels := addDistinct(append([]string{}, general...), pre, pre+"1)", pre+"x)", "x"+pre)
+		labels = addDistinct(labels, labelStrangers(pre)...)
+		labels = addDistinct(labels, universe...)
+		table1(it[0]+"_table", f, labels)
+	}
+
+	// ---- isTopLevelDefinition (exact match) -----------------------------------------------------------
+	var toplevel []string
+	{
+		f := pred1("isTopLevelDefinition")
+		for _, u := range universe {
+			if f(u) {
+				toplevel = append(toplevel, u)
+			}
+		}
+		if len(toplevel) == 0 && !bad {
+			fail("ted: isTopLevelDefinition accepts none of the string literals of %s", file)
+		}
+		fmt.Fprintf(b, "Definition ted_py_toplevel : list string := %s.\n", tedStrList(toplevel))
+		labels := addDistinct(append([]string{}, general...), universe...)
+		for _, m := range toplevel {
+			labels = addDistinct(labels, labelStrangers(m)...)
+			labels = addDistinct(labels, m+"(x)")
+		}
+		table1("isTopLevelDefinition_table", f, labels)
+	}
+
+	// ---- IsBoilerplateLabel (framework_patterns.go): the pattern lists stay read from the source, the table checks the reading
+	if fd := findFunc(p, "framework_patterns.go", "", "IsBoilerplateLabel"); fd != nil {
+		f := func(sv string) bool {
+			v, err := asBool(in.call1(p, fd, nil, sv))
+			if err != nil && !bad {
+				fail("ted: IsBoilerplateLabel cannot be evaluated: %v", err)
+				bad = true
+			}
+			return v
+		}
+		labels := addDistinct(append([]string{}, general...), universe...)
+		for _, u := range fileStrings(p, "framework_patterns.go") {
+			labels = addDistinct(labels, u, "x"+u+"y", strings.ToUpper(u), u+"x)")
+			labels = addDistinct(labels, labelStrangers(u)...)
+		}
+		table1("IsBoilerplateLabel_table", f, labels)
+	}
+
+	// ---- areRelatedNodeTypes ---------------------------------------------------------------------------
+	var relLabels []string
+	{
+		f := pred2("areRelatedNodeTypes")
+		var items []string
+		for i, u := range universe {
+			for j, w := range universe {
+				if j <= i {
+					continue
+				}
+				if f(u, w) || f(w, u) {
+					items = append(items, "("+tedStr(u)+", "+tedStr(w)+")")
+					relLabels = addDistinct(relLabels, u, w)
+				}
+			}
+			if f(u, u) {
+				items = append(items, "("+tedStr(u)+", "+tedStr(u)+")")
+				relLabels = addDistinct(relLabels, u)
+			}
+		}
+		if len(items) == 0 && !bad {
+			fail("ted: areRelatedNodeTypes relates none of the string literals of %s", file)
+		}
+		fmt.Fprintf(b, "Definition ted_py_relatedPairs : list (string * string) := [%s].\n", strings.Join(items, "; "))
+		labels := addDistinct(append([]string{}, general...), relLabels...)
+		for _, m := range relLabels {
+			labels = addDistinct(labels, m+"X")
+		}
+		labels = addDistinct(labels, toplevel...)
+		table2("areRelatedNodeTypes_table", f, labels)
+	}
+
+	// ---- areSameCategory -------------------------------------------------------------------------------
+	var catLabels []string
+	{
+		f := pred2("areSameCategory")
+		catLabels = append(catLabels, general[:3]...)
+		for _, k := range []string{"structuralNodes", "controlFlowNodes", "expressionNodes"} {
+			ms := cats[k]
+			for i, m := range ms {
+				if i < 3 || i == len(ms)-1 {
+					catLabels = addDistinct(catLabels, m)
+				}
+			}
+			if len(ms) > 0 {
+				catLabels = addDistinct(catLabels, ms[0]+"X", strings.ToLower(ms[0]))
+			}
+		}
+		catLabels = addDistinct(catLabels, prefixes["literal_prefix"]+"1)", prefixes["identifier_prefix"]+"x)")
+		table2("areSameCategory_table", f, catLabels)
+	}
+
+	// ---- getNodeTypeMultiplier ---------------------------------------------------------------------------
+	if fd := findFunc(p, file, recv, "getNodeTypeMultiplier"); fd == nil {
+		fail("ted: function not found: getNodeTypeMultiplier")
+	} else {
+		mult := func(c *Struct, label string) (float64, bool) {
+			v, err := in.call1(p, fd, c, label)
+			x, ok := v.(float64)
+			if err != nil || !ok {
+				if !bad {
+					fail("ted: getNodeTypeMultiplier cannot be evaluated: %v (%T)", err, v)
+					bad = true
+				}
+				return 0, false
+			}
+			return x, true
+		}
+		isS, isC, isE := pred1("isStructuralNode"), pred1("isControlFlowNode"), pred1("isExpressionNode")
+		pick := func(ms []string, ok func(string) bool) string {
+			for _, m := range ms {
+				if ok(m) {
+					return m
+				}
+			}
+			return ""
+		}
+		reps := []struct{ name, label string }{
+			{"structural", pick(cats["structuralNodes"], func(string) bool { return true })},
+			{"controlflow", pick(cats["controlFlowNodes"], func(s string) bool { return !isS(s) })},
+			{"expression", pick(cats["expressionNodes"], func(s string) bool { return !isS(s) && !isC(s) })},
+			{"literal_ignored", prefixes["literal_prefix"] + "1)"},
+			{"identifier_ignored", prefixes["identifier_prefix"] + "x)"},
+			{"other", "Zzz"},
+		}
+		all := model(true, true, false, 0.5)
+		for _, r := range reps {
+			if r.label == "" || (r.name != "other" && r.label == "Zzz") {
+				fail("ted: getNodeTypeMultiplier: no representative label for %s", r.name)
+				continue
+			}
+			if r.name == "literal_ignored" || r.name == "identifier_ignored" {
+				if isS(r.label) || isC(r.label) || isE(r.label) {
+					fail("ted: getNodeTypeMultiplier: %s label %q also falls in a node category", r.name, r.label)
+					continue
+				}
+			}
+			if x, ok := mult(all, r.label); ok {
+				q, _ := floatQ(x)
+				fmt.Fprintf(b, "Definition ted_py_mult_%s : Q := %s.  (* getNodeTypeMultiplier(%q) *)\n", r.name, q, r.label)
+			}
+		}
+		// decision table: ((IgnoreLiterals, IgnoreIdentifiers, ReduceBoilerplateWeight), label) -> multiplier, with BoilerplateMultiplier = 1/8
+		labels := addDistinct(append([]string{}, general...), catLabels...)
+		labels = addDistinct(labels, "Decorator", "AnnAssign", "AnnAssign(x)", "Call(Field()", "Name(field()", "Constant(generic_type)", "Name(TYPE_PARAMETER)", "Call(attr.ib()")
+		var rows []string
+		for _, fl := range [][3]bool{{false, false, false}, {true, true, false}, {false, false, true}, {true, false, true}, {false, true, true}, {true, true, true}} {
+			c := model(fl[0], fl[1], fl[2], 0.125)
+			for _, l := range labels {
+				if x, ok := mult(c, l); ok {
+					q, _ := floatQ(x)
+					rows = append(rows, fmt.Sprintf("(((%s, %s, %s), %s), %s)", coqBool(fl[0]), coqBool(fl[1]), coqBool(fl[2]), tedStr(l), q))
+				}
+			}
+		}
+		emitTable(tb, "getNodeTypeMultiplier_table", "((bool * bool * bool) * string) * Q", rows)
+	}
+
+	// ---- calculateLabelSimilarity ------------------------------------------------------------------------
+	if fd := findFunc(p, file, recv, "calculateLabelSimilarity"); fd == nil {
+		fail("ted: function not found: calculateLabelSimilarity")
+	} else {
+		sim := func(l1, l2 string) (float64, bool) {
+			v, err := in.call1(p, fd, plain, l1, l2)
+			x, ok := v.(float64)
+			if err != nil || !ok {
+				if !bad {
+					fail("ted: calculateLabelSimilarity cannot be evaluated: %v (%T)", err, v)
+					bad = true
+				}
+				return 0, false
+			}
+			return x, true
+		}
+		rel, same := pred2("areRelatedNodeTypes"), pred2("areSameCategory")
+		var relPair, catPair [2]string
+		for _, u := range relLabels {
+			for _, w := range relLabels {
+				if relPair[0] == "" && u != w && rel(u, w) {
+					relPair = [2]string{u, w}
+				}
+			}
+		}
+		for _, u := range catLabels {
+			for _, w := range catLabels {
+				if catPair[0] == "" && u != w && u != "" && w != "" && same(u, w) && !rel(u, w) && !strings.Contains(u, "(") && !strings.Contains(w, "(") {
+					catPair = [2]string{u, w}
+				}
+			}
+		}
+		top := ""
+		if len(toplevel) > 0 {
+			top = toplevel[0]
+		}
+		levels := []struct {
+			name   string
+			l1, l2 string
+		}{
+			{"toplevel_other_name", top + "(A)", top + "(B)"},
+			{"same_base", prefixes["identifier_prefix"] + "a)", prefixes["identifier_prefix"] + "b)"},
+			{"related", relPair[0], relPair[1]},
+			{"same_category", catPair[0], catPair[1]},
+			{"none", "Zzz", "Yyy"},
+		}
+		for _, lv := range levels {
+			if lv.l1 == "" || lv.l2 == "" || lv.l1 == "(A)" {
+				fail("ted: calculateLabelSimilarity: no representative label pair for %s", lv.name)
+				continue
+			}
+			if x, ok := sim(lv.l1, lv.l2); ok {
+				q, _ := floatQ(x)
+				fmt.Fprintf(b, "Definition ted_py_sim_%s : Q := %s.  (* calculateLabelSimilarity(%q, %q) *)\n", lv.name, q, lv.l1, lv.l2)
+			}
+		}
+		labels := []string{"", "Zzz", "Zzz(a)", "Zzz(b)", "Name(a", "Name)a(", "(x)"}
+		for _, t := range toplevel {
+			labels = addDistinct(labels, t, t+"(A)", t+"(B)", t+"(A")
+		}
+		labels = addDistinct(labels, prefixes["identifier_prefix"]+"a)", prefixes["identifier_prefix"]+"b)", prefixes["literal_prefix"]+"1)")
+		for i, m := range relLabels {
+			if i < 6 {
+				labels = addDistinct(labels, m, m+"(x)")
+			}
+		}
+		labels = addDistinct(labels, catPair[0], catPair[1])
+		var rows []string
+		for _, l1 := range labels {
+			for _, l2 := range labels {
+				if x, ok := sim(l1, l2); ok {
+					q, _ := floatQ(x)
+					rows = append(rows, fmt.Sprintf("((%s, %s), %s)", tedStr(l1), tedStr(l2), q))
+				}
+			}
+		}
+		emitTable(tb, "calculateLabelSimilarity_table", "(string * string) * Q", rows)
+	}
 }
